@@ -234,6 +234,29 @@ def run_unit(unit, rec):
                     data = pre + img + suf
                     check(rec, data, len(pre), len(pre) + len(img), ("pe_file",), img,
                           {"kind": "pe", "nsec": nsec, "pre": pre, "suf": suf}, profile=None)
+        # one header field at a time over its small values: e_lfanew at EVERY multiple of 4 from 4 (NT headers overlapping the DOS header, the
+        # "tiny PE" layout) to 0x100, and the boundary ladder above; an image is in the statement's domain when the PE parser accepts it and sees
+        # its section's raw data inside the image
+        import pefile
+
+        accepted = []
+        for lf in list(range(4, 0x104, 4)) + [0x1FC, 0x200, 0x3FC, 0x400, 0xFFC, 0x1000, 0x1004]:
+            img = pegen.pe_at(lf)
+            try:
+                parsed = pefile.PE(data=img)
+                ok_pe = [(s_.PointerToRawData + s_.SizeOfRawData) for s_ in parsed.sections] == [len(img)] and parsed.DOS_HEADER.e_lfanew == lf
+            except Exception:  # noqa: BLE001
+                ok_pe = False
+            if not ok_pe:
+                rec.note("e_lfanew value for which the PE parser does not accept the generated image (outside the domain)")
+                continue
+            accepted.append(lf)
+            for pre in (b"", b"x", b"junk \x00\x01 "):
+                for suf in (b"", b" tail"):
+                    data = pre + img + suf
+                    check(rec, data, len(pre), len(pre) + len(img), ("pe_file",), img, {"kind": "pe-lfanew", "lfanew": lf, "pre": pre, "suf": suf}, sig_extra="|e_lfanew-sweep")
+        if len(accepted) < 40:
+            raise core.HarnessError(f"e_lfanew sweep: the PE parser accepted only {len(accepted)} generated images")
         # an image carried inside another image's section data (dropper), two images back to back, an image in another image's overlay:
         # every one of them is an embedded, structurally valid PE file and is reported with exactly its own span
         for inner_spec in (1, 2, "bss"):
@@ -258,7 +281,7 @@ def replay(w, rec):
     if w.get("kind") == "inst":
         a, b = w["span"]
         check(rec, w["data"], a, b, tuple(w["types"]), w["value"], w, sig_extra="")
-    elif w.get("kind") in ("pe-nested", "pe-pair"):
+    elif w.get("kind") in ("pe-nested", "pe-pair", "pe-lfanew"):
         run_unit(("pe",), rec)
     elif w.get("kind") == "pe":
         img = _pe_image(w["nsec"])
